@@ -137,7 +137,7 @@ def setup(spec, ctx):
     l = gen.make_dataset(im, (-2, 2))
     r = gen.make_dataset(im, (-2, 2))
     _state["mono"] = (gen.metadata_dataset(l), gen.metadata_dataset(r))
-    im3 = np.zeros((3, 30, 40), np.float32)
+    im3 = np.zeros((4, 30, 40), np.float32)
     l3 = gen.make_dataset(im3, (-2, 2))
     r3 = gen.make_dataset(im3, (-2, 2))
     _state["mb"] = (gen.metadata_dataset(l3), gen.metadata_dataset(r3))
@@ -187,7 +187,10 @@ def cases(spec, ctx):
         cs += [
             {"work": "band", "band": "r", "expect": "accept"},
             {"work": "band", "band": "g", "expect": "accept"},
-            {"work": "band", "band": "nir", "expect": "reject"},
+            {"work": "band", "band": "nir", "expect": "accept"},
+            {"work": "band", "band": "rg", "expect": "reject"},
+            {"work": "band", "band": "ni", "expect": "reject"},
+            {"work": "band", "band": "swir", "expect": "reject"},
             {"work": "band", "band": "R", "expect": "reject"},
             {"work": "band", "band": None, "expect": "reject"},
             {"work": "band-mono", "band": "r", "expect": "reject"},
